@@ -175,6 +175,11 @@ pub fn run_stream(filters: &[BodyFilter], headers: &[Header], chunks: &[&[u8]], 
     let e = f.end(None);
     out.extend_from_slice(&e);
     per_call.push(e);
+    #[cfg(redirectionio_verif)]
+    if error_at.is_none() && f.verif_in_error() {
+        // the error state was entered by end() itself
+        error_at = Some(chunks.len());
+    }
     StreamOut {
         out,
         per_call,
@@ -555,6 +560,9 @@ impl World for W2 {
     fn generate(rng: &mut Rng, prop: &str, mode: &str, tier: Tier) -> W2Case {
         match mode {
             "plain" => gen_plain(rng, tier, prop),
+            "conserve" => gen_conserve(rng, tier),
+            "faults" => gen_faults(rng, tier),
+            "codec" => gen_codec(rng, tier),
             other => panic!("W2: unknown mode {other}"),
         }
     }
@@ -562,6 +570,8 @@ impl World for W2 {
     fn execute(case: &W2Case, ctx: &mut Ctx) {
         match ctx.mode.as_str() {
             "plain" => exec_plain(case, ctx),
+            "conserve" | "faults" => exec_conserve(case, ctx),
+            "codec" => exec_codec(case, ctx),
             other => panic!("W2: unknown mode {other}"),
         }
     }
@@ -684,12 +694,16 @@ impl World for W2 {
                     }
                     out.push(c);
                 }
-                if h.value.len() > 8 {
-                    let mut c = case.clone();
-                    if let BodyFilter::HTML(h2) = &mut c.filters[k] {
-                        h2.value = format!("[[V{k}]]");
+                // simplify the value to its bare sentinel (keeps the sentinel number: values stay distinct)
+                if let (Some(a), Some(b)) = (h.value.find("[[V"), h.value.find("]]")) {
+                    if a < b && (a > 0 || b + 2 < h.value.len()) {
+                        let bare = h.value[a..b + 2].to_string();
+                        let mut c = case.clone();
+                        if let BodyFilter::HTML(h2) = &mut c.filters[k] {
+                            h2.value = bare;
+                        }
+                        out.push(c);
                     }
-                    out.push(c);
                 }
             }
         }
@@ -716,6 +730,9 @@ impl World for W2 {
 
     fn rule(_prop: &str, mode: &str) -> String {
         match mode {
+            "codec" => "one run = one generated (document, filters, headers) compressed by an independent producer (flate2 gzip/zlib levels 0-9, brotli quality 0-11 x lgwin 16-24; Content-Encoding in any letter case) and delivered under every single cut of the compressed stream (small streams), byte-at-a-time and seeded multi-cut schedules; oracle = an independent reader-side decoder accepts the output as one complete stream without trailing bytes and it decodes to the one-chunk output of the same filters on the plain body; one run in eight declares an unsupported or combined encoding and must yield an empty chain and untouched bytes. distinct_nontrivial = distinct (document, filters, headers, producer parameters) with a non-empty chain".to_string(),
+            "conserve" => "fault-free conservation: one run = one generated (document, filter list without text-replace, headers) delivered under seeded schedules and, per document, under EVERY truncation point (prefix b[..k] in one chunk and in two); oracle = byte conservation modulo sentinel values (insert-only: strip(out)==b; replace: out minus values aligns with b minus '<'..'>' spans; nothing applicable: out==b). distinct_nontrivial = distinct (document, filters, headers) with a non-empty chain".to_string(),
+            "faults" => "fault injection on the stream: bytes overwritten with 0xFF/0xC3/0x80/0x00 or bit-flipped at seeded positions (invalid UTF-8 mid-stream), truncation, misdeclared / unsupported / multi-valued Content-Encoding, corrupted compressed streams, unsupported content types, unbuildable filters, cancellation (drop without end); same conservation oracle, relaxed only for corrupted compressed streams (pass-through after the error). distinct_nontrivial = distinct faulted cases with a non-empty chain".to_string(),
             "plain" => "one run = one generated (document, filter list, response headers); documents are serialised random DOM trees (elements, attribute quoting styles, void/self-closing, comments incl. conditional/bogus, doctype, raw-text elements with markup-looking content, entities, '<'-bearing text, upper-case tags, multi-byte UTF-8), one third with byte-level mess (truncation, stray markup). Each run executes every single cut 0..=len (documents up to 1200 bytes), byte-at-a-time, and seeded multi-cut schedules (strides, empty chunks, cuts biased to structural bytes); evaluations = schedules executed. distinct_nontrivial = distinct (document, filters, headers) triples whose filter chain is non-empty".to_string(),
             _ => String::new(),
         }
@@ -830,4 +847,701 @@ fn exec_plain(case: &W2Case, ctx: &mut Ctx) {
         check(s, ctx);
     }
     ctx.event(&format!("failures={}", ctx.failures.len()));
+}
+
+// ---------------------------------------------------------------------------
+// C04: conservation of response bytes
+
+pub const SIG_HELD_DROPPED: &str = "held-bytes-dropped-on-stage-error";
+
+fn find_sub(hay: &[u8], needle: &[u8], from: usize) -> Option<usize> {
+    if needle.is_empty() {
+        return Some(from.min(hay.len()));
+    }
+    if hay.len() < needle.len() {
+        return None;
+    }
+    let mut i = from;
+    while i + needle.len() <= hay.len() {
+        if &hay[i..i + needle.len()] == needle {
+            return Some(i);
+        }
+        i += 1;
+    }
+    None
+}
+
+fn remove_all(hay: &[u8], needle: &[u8]) -> Vec<u8> {
+    if needle.is_empty() {
+        return hay.to_vec();
+    }
+    let mut out = Vec::with_capacity(hay.len());
+    let mut i = 0;
+    while i < hay.len() {
+        if hay[i..].starts_with(needle) {
+            i += needle.len();
+        } else {
+            out.push(hay[i]);
+            i += 1;
+        }
+    }
+    out
+}
+
+/// Split `hay` at every occurrence of any of `seps`.
+fn split_any(hay: &[u8], seps: &[Vec<u8>]) -> Vec<Vec<u8>> {
+    let mut pieces = Vec::new();
+    let mut cur = Vec::new();
+    let mut i = 0;
+    'outer: while i < hay.len() {
+        for s in seps {
+            if !s.is_empty() && hay[i..].starts_with(s) {
+                pieces.push(std::mem::take(&mut cur));
+                i += s.len();
+                continue 'outer;
+            }
+        }
+        cur.push(hay[i]);
+        i += 1;
+    }
+    pieces.push(cur);
+    pieces
+}
+
+pub struct FilterClasses {
+    pub insert_values: Vec<Vec<u8>>,
+    pub replace_values: Vec<Vec<u8>>,
+    pub has_text_replace: bool,
+    /// number of filters the library can build at all for these headers
+    pub buildable: usize,
+    /// lower-cased first path elements of buildable html filters
+    pub first_elems: Vec<String>,
+    pub has_text_filter: bool,
+}
+
+pub fn classify_filters(filters: &[BodyFilter], headers: &[(String, String)]) -> FilterClasses {
+    let mut ct: Option<String> = None;
+    for (n, v) in headers {
+        if n.to_lowercase() == "content-type" {
+            ct = Some(v.to_lowercase());
+        }
+    }
+    let html_ok = match &ct {
+        None => true,
+        Some(c) => c.contains("text/html"),
+    };
+    let mut fc = FilterClasses {
+        insert_values: Vec::new(),
+        replace_values: Vec::new(),
+        has_text_replace: false,
+        buildable: 0,
+        first_elems: Vec::new(),
+        has_text_filter: false,
+    };
+    for f in filters {
+        match f {
+            BodyFilter::Text(t) => {
+                fc.buildable += 1;
+                fc.has_text_filter = true;
+                match t.action {
+                    TextAction::Replace => fc.has_text_replace = true,
+                    _ => fc.insert_values.push(t.content.clone().into_bytes()),
+                }
+            }
+            BodyFilter::HTML(h) => {
+                if !html_ok || h.element_tree.is_empty() {
+                    continue;
+                }
+                match h.action.as_str() {
+                    "append_child" | "prepend_child" => fc.insert_values.push(h.value.clone().into_bytes()),
+                    "replace" => fc.replace_values.push(h.value.clone().into_bytes()),
+                    _ => continue,
+                }
+                fc.buildable += 1;
+                fc.first_elems.push(h.element_tree[0].to_lowercase());
+            }
+        }
+    }
+    fc
+}
+
+/// Does `out` (insert values already stripped) equal `wire[..end]` with some
+/// '<'..'>' delimited spans replaced by replace values?  Returns the set of
+/// possible `end` positions.
+fn align_with_replacements(wire: &[u8], out: &[u8], replace_values: &[Vec<u8>]) -> Vec<usize> {
+    let pieces = split_any(out, replace_values);
+    // positions in wire after matching pieces[0..=i]
+    let p0 = &pieces[0];
+    if !wire.starts_with(p0) {
+        return Vec::new();
+    }
+    let mut states: Vec<usize> = vec![p0.len()];
+    for piece in pieces.iter().skip(1) {
+        let mut next: Vec<usize> = Vec::new();
+        for &cur in &states {
+            if cur >= wire.len() || wire[cur] != b'<' {
+                continue;
+            }
+            // the replaced span is wire[cur..pos], must end with '>' and be at least "<x>"
+            let mut pos = cur + 2;
+            while pos <= wire.len() {
+                if wire[pos - 1] == b'>' && wire[pos..].starts_with(piece) {
+                    let e = pos + piece.len();
+                    if !next.contains(&e) {
+                        next.push(e);
+                    }
+                }
+                pos += 1;
+            }
+        }
+        states = next;
+        if states.is_empty() {
+            break;
+        }
+    }
+    states
+}
+
+/// `Ok` when `out` conserves `wire` under the property's clauses.
+pub fn conserved(wire: &[u8], out: &[u8], fc: &FilterClasses) -> Result<(), String> {
+    let mut stripped = out.to_vec();
+    for v in &fc.insert_values {
+        stripped = remove_all(&stripped, v);
+    }
+    if fc.replace_values.is_empty() {
+        if stripped == wire {
+            return Ok(());
+        }
+        return Err("insert-only: output minus inserted values differs from the input".to_string());
+    }
+    let ends = align_with_replacements(wire, &stripped, &fc.replace_values);
+    if ends.contains(&wire.len()) {
+        Ok(())
+    } else {
+        Err("replace: output minus values does not align with the input minus '<'..'>' spans".to_string())
+    }
+}
+
+/// Conservation relative to some prefix `wire[..p]`, `p <= limit` (used by the held-bytes signature).
+fn conserved_prefix(wire: &[u8], out: &[u8], fc: &FilterClasses, limit: usize) -> Option<usize> {
+    let mut stripped = out.to_vec();
+    for v in &fc.insert_values {
+        stripped = remove_all(&stripped, v);
+    }
+    if fc.replace_values.is_empty() {
+        if wire.starts_with(&stripped) && stripped.len() <= limit {
+            return Some(stripped.len());
+        }
+        return None;
+    }
+    align_with_replacements(wire, &stripped, &fc.replace_values).into_iter().filter(|e| *e <= limit).max()
+}
+
+fn apply_faults(wire: &[u8], faults: &[Fault]) -> (Vec<u8>, Option<usize>) {
+    let mut w = wire.to_vec();
+    let mut cancel = None;
+    for f in faults {
+        match f {
+            Fault::Truncate { at } => w.truncate((*at).min(w.len())),
+            Fault::Overwrite { pos, byte } => {
+                if !w.is_empty() {
+                    let p = *pos % w.len();
+                    w[p] = *byte;
+                }
+            }
+            Fault::BitFlip { pos, bit } => {
+                if !w.is_empty() {
+                    let p = *pos % w.len();
+                    w[p] ^= 1 << (*bit % 8);
+                }
+            }
+            Fault::Cancel { after } => cancel = Some(*after),
+        }
+    }
+    (w, cancel)
+}
+
+fn content_encoding(headers: &[(String, String)]) -> Option<String> {
+    let mut ce = None;
+    for (n, v) in headers {
+        if n.to_lowercase() == "content-encoding" {
+            ce = Some(v.to_lowercase());
+        }
+    }
+    ce
+}
+
+fn gen_conserve(rng: &mut Rng, tier: Tier) -> W2Case {
+    let mut c = gen_plain(rng, tier, "C04");
+    // the conservation clauses do not speak about replace_text (it replaces the whole body by design)
+    let o = GenOpts::swarm(rng, 4);
+    let _ = o;
+    let paths: Vec<Vec<String>> = Vec::new();
+    let _ = paths;
+    c.filters.retain(|f| !matches!(f, BodyFilter::Text(t) if matches!(t.action, TextAction::Replace)));
+    // an inserted value must not itself be a possible target of a later filter (filters compose in order,
+    // a later replace may legitimately remove an inserted <meta>): sentinels are text or <ins> here
+    for (k, f) in c.filters.iter_mut().enumerate() {
+        if let BodyFilter::HTML(h) = f {
+            if h.value.starts_with("<meta") {
+                if let (Some(a), Some(b)) = (h.value.find("[[V"), h.value.find("]]")) {
+                    h.value = h.value[a..b + 2].to_string();
+                }
+            }
+            let _ = k;
+        }
+    }
+    c.all_single = false;
+    c.all_prefixes = c.body.len() <= 1500;
+    c.scheds.truncate(if tier == Tier::Quick { 8 } else { 16 });
+    c
+}
+
+fn gen_faults(rng: &mut Rng, tier: Tier) -> W2Case {
+    let mut c = gen_conserve(rng, tier);
+    c.all_prefixes = false;
+    let len = c.body.len().max(1);
+    match rng.below(10) {
+        // invalid UTF-8 somewhere in a plain body
+        0..=3 => {
+            let n = rng.range(1, 2);
+            for _ in 0..n {
+                let pos = rng.below(len);
+                if rng.coin() {
+                    c.faults.push(Fault::Overwrite {
+                        pos,
+                        byte: *rng.pick(&[0xFFu8, 0xC3, 0x80, 0x00, 0xE2, 0xF0, 0xC0]),
+                    });
+                } else {
+                    c.faults.push(Fault::BitFlip { pos, bit: 7 });
+                }
+            }
+        }
+        // the body is not what Content-Encoding says
+        4 | 5 => {
+            let e = rng.pick_str(&["gzip", "deflate", "br", "GZIP", "Br"]);
+            c.headers = gen_headers(rng, Some(&e));
+            // small first chunks make the decoder hold bytes before it can fail
+            let k = rng.range(1, 12).min(len);
+            c.scheds.insert(0, vec![k]);
+            c.scheds.insert(0, vec![rng.range(1, 3).min(len), k.max(3)]);
+        }
+        // unsupported or combined encodings: no filtering at all
+        6 => {
+            let e = rng.pick_str(&["identity", "compress", "gzip, br", "zstd", "", "x-gzip", "gzip,deflate"]);
+            c.headers = gen_headers(rng, Some(&e));
+        }
+        // a valid compressed stream damaged on the way
+        7 | 8 => {
+            let codec = rng.pick_str(&["gzip", "deflate", "br"]);
+            let enc = Enc {
+                codec: codec.clone(),
+                level: rng.range(0, 9) as u32,
+                lgwin: rng.range(16, 24) as u32,
+            };
+            c.headers = gen_headers(rng, Some(&codec));
+            let wl = encode(&enc, &c.body).len().max(1);
+            c.enc = Some(enc);
+            if rng.chance(3, 4) {
+                c.faults.push(Fault::BitFlip {
+                    pos: rng.below(wl),
+                    bit: rng.below(8) as u8,
+                });
+            } else {
+                c.faults.push(Fault::Truncate { at: rng.below(wl) });
+            }
+            c.scheds = gen_scheds(rng, wl, 6, &[]);
+        }
+        // truncation plus cancellation
+        _ => {
+            c.faults.push(Fault::Truncate { at: rng.below(len + 1) });
+            if rng.coin() {
+                c.faults.push(Fault::Cancel { after: rng.below(4) });
+            }
+        }
+    }
+    if rng.chance(1, 10) {
+        c.faults.push(Fault::Cancel { after: rng.below(5) });
+    }
+    c
+}
+
+fn exec_conserve(case: &W2Case, ctx: &mut Ctx) {
+    let headers = lib_headers(&case.headers);
+    let base: Vec<u8> = match &case.enc {
+        Some(e) => encode(e, &case.body),
+        None => case.body.clone(),
+    };
+    let (wire, cancel) = apply_faults(&base, &case.faults);
+    for f in &case.faults {
+        match f {
+            Fault::Truncate { .. } => ctx.probe("fault_truncate"),
+            Fault::Overwrite { .. } => ctx.probe("fault_overwrite_byte"),
+            Fault::BitFlip { .. } => ctx.probe("fault_bit_flip"),
+            Fault::Cancel { .. } => ctx.probe("fault_cancel_without_end"),
+        }
+    }
+    let wire_is_utf8 = std::str::from_utf8(&wire).is_ok();
+    if !wire_is_utf8 && case.enc.is_none() {
+        ctx.probe("fault_invalid_utf8_on_the_wire");
+    }
+    ctx.event_bytes("wire", &wire);
+    let fc = classify_filters(&case.filters, &case.headers);
+    let ce = content_encoding(&case.headers);
+    let supported = matches!(ce.as_deref(), None | Some("gzip") | Some("deflate") | Some("br"));
+    let declared_codec = ce.is_some() && supported;
+    if ce.is_some() && !supported {
+        ctx.probe("fault_unsupported_content_encoding");
+    }
+    if declared_codec && case.enc.is_none() {
+        ctx.probe("fault_misdeclared_content_encoding");
+    }
+    if declared_codec && case.enc.is_some() {
+        ctx.probe("fault_corrupted_compressed_stream");
+    }
+    let expect_empty_chain = fc.buildable == 0 || (ce.is_some() && !supported);
+    let mut counted = false;
+
+    let mut check = |w: &[u8], cuts: &[usize], label: &str, ctx: &mut Ctx| {
+        ctx.evals += 1;
+        let chunks = chunks_of(w, cuts);
+        let hint = json!({ "cuts": cuts, "label": label, "wire_len": w.len() });
+        let Some(got) = guard_hint(ctx, "filter(stream)", hint.clone(), || run_stream(&case.filters, &headers, &chunks, cancel)) else {
+            return;
+        };
+        if !counted && !got.chain_empty {
+            counted = true;
+            ctx.fingerprint(case_fp(case) ^ fnv1a(serde_json::to_string(&case.faults).unwrap().as_bytes()));
+        }
+        if got.error_at.is_some() {
+            ctx.probe("error_state_entered");
+        }
+        if let Some(n) = cancel {
+            if n <= chunks.len() {
+                // cancelled: nothing to compare, the run only has to return
+                ctx.probe("runs_cancelled_before_end");
+                return;
+            }
+        }
+        if expect_empty_chain != got.chain_empty && !(fc.buildable == 0) {
+            ctx.fail_hint(
+                "chain-emptiness",
+                format!(
+                    "is_empty()={} but expected {} (buildable filters={}, content-encoding={:?})",
+                    got.chain_empty, expect_empty_chain, fc.buildable, ce
+                ),
+                hint.clone(),
+            );
+            return;
+        }
+        if fc.buildable == 0 && !got.chain_empty {
+            ctx.fail_hint("chain-emptiness", "a filter was created although no filter can be built".to_string(), hint.clone());
+            return;
+        }
+        if got.chain_empty {
+            if got.out != w {
+                ctx.fail_hint(
+                    "passthrough",
+                    format!("no filter applies but output differs\n in ={}\n out={}", show(w), show(&got.out)),
+                    hint,
+                );
+            }
+            return;
+        }
+        if declared_codec {
+            // The body claims an encoding.  A damaged or misdeclared stream must leave the chain in its error
+            // state, from which every chunk passes through unchanged (deliberate, narrow relaxation: DESIGN §3 C04).
+            match got.error_at {
+                Some(k) => {
+                    for j in k..chunks.len() {
+                        if got.per_call[j] != chunks[j] {
+                            ctx.fail_hint(
+                                "passthrough-after-error",
+                                format!("chunk {j} altered after the decode error at chunk {k}: in={} out={}", show(chunks[j]), show(&got.per_call[j])),
+                                hint,
+                            );
+                            return;
+                        }
+                    }
+                    if !got.per_call[chunks.len()].is_empty() {
+                        ctx.fail_hint("passthrough-after-error", "end() returned bytes after an error".to_string(), hint);
+                        return;
+                    }
+                    if case.enc.is_none() {
+                        // misdeclared: nothing was really decoded, so conservation is exact
+                        if got.out != w {
+                            let before: Vec<u8> = got.per_call[..k].concat();
+                            let start_k: usize = chunks[..k].iter().map(|c| c.len()).sum();
+                            if ctx.is_open(SIG_HELD_DROPPED) && before.is_empty() && k > 0 && got.out == w[start_k..] {
+                                ctx.known(SIG_HELD_DROPPED, || format!("misdeclared encoding {ce:?}, cuts={cuts:?}, lost {} bytes held by the decoder", start_k));
+                                return;
+                            }
+                            ctx.fail_hint(
+                                "misdeclared-encoding-loses-bytes",
+                                format!("cuts={cuts:?}\n in ={}\n out={}", show(w), show(&got.out)),
+                                hint,
+                            );
+                        }
+                    }
+                }
+                None => {
+                    if case.enc.is_none() && !w.is_empty() && cuts.len() + 1 >= 1 {
+                        // plain bytes that the decoder accepted so far without output: they are held, and end() fails or flushes
+                        // nothing; the stream is then lost entirely unless it was empty.  Only report when bytes vanished.
+                        if got.out.is_empty() {
+                            if ctx.is_open(SIG_HELD_DROPPED) {
+                                ctx.known(SIG_HELD_DROPPED, || format!("misdeclared encoding {ce:?}: {} bytes swallowed by the decoder, error only at end()", w.len()));
+                                return;
+                            }
+                            ctx.fail_hint("misdeclared-encoding-loses-bytes", format!("whole body of {} bytes swallowed", w.len()), hint);
+                        }
+                    }
+                }
+            }
+            return;
+        }
+        // plain body, non-empty chain
+        if fc.has_text_replace {
+            return;
+        }
+        match conserved(w, &got.out, &fc) {
+            Ok(()) => {
+                // nothing can be inserted when no path can start
+                let lw = w.to_ascii_lowercase();
+                let can_start = fc.has_text_filter
+                    || fc.first_elems.iter().any(|e| find_sub(&lw, format!("<{e}").as_bytes(), 0).is_some());
+                if !can_start && got.out != w {
+                    ctx.fail_hint(
+                        "spurious-insertion",
+                        format!("no path element occurs in the body but output differs\n in ={}\n out={}", show(w), show(&got.out)),
+                        hint,
+                    );
+                }
+            }
+            Err(why) => {
+                if let Some(k) = got.error_at {
+                    // counterfactual signature: everything from the failing chunk on passed through unchanged, what was
+                    // emitted before conserves a prefix of what came before, the gap is what the stages held back
+                    let before: Vec<u8> = got.per_call[..k].concat();
+                    let after: Vec<u8> = got.per_call[k..].concat();
+                    let start_k: usize = chunks[..k].iter().map(|c| c.len()).sum();
+                    if ctx.is_open(SIG_HELD_DROPPED) && after == w[start_k..] {
+                        if let Some(p) = conserved_prefix(w, &before, &fc, start_k) {
+                            if p < start_k {
+                                ctx.known(SIG_HELD_DROPPED, || {
+                                    format!("cuts={cuts:?} error at chunk {k}; lost held bytes {} ; body={}", show(&w[p..start_k]), show(w))
+                                });
+                                return;
+                            }
+                        }
+                    }
+                }
+                ctx.fail_hint(
+                    "conservation",
+                    format!("{why} [{label}] cuts={cuts:?} error_at={:?}\n in ={}\n out={}", got.error_at, show(w), show(&got.out)),
+                    hint,
+                );
+            }
+        }
+    };
+
+    check(&wire, &[], "one chunk", ctx);
+    for s in &case.scheds {
+        if ctx.failures.len() >= 6 {
+            break;
+        }
+        check(&wire, s, "schedule", ctx);
+    }
+    if case.all_prefixes {
+        for k in 0..wire.len() {
+            if ctx.failures.len() >= 6 {
+                break;
+            }
+            // only prefixes that are valid UTF-8 when the body is: the cut of the *connection* may be anywhere,
+            // and the filter must still conserve it
+            check(&wire[..k], &[], "truncated", ctx);
+            ctx.probe("fault_truncate");
+            if k >= 2 {
+                check(&wire[..k], &[k / 2], "truncated, two chunks", ctx);
+            }
+        }
+    }
+    ctx.event(&format!("failures={}", ctx.failures.len()));
+}
+
+// ---------------------------------------------------------------------------
+// C14: compressed == decompressed
+
+fn gen_codec(rng: &mut Rng, tier: Tier) -> W2Case {
+    let mut c = gen_plain(rng, tier, "C14");
+    c.all_single = false;
+    if c.filters.is_empty() {
+        c.filters = gen_filters(rng, &[], 1, true, true);
+    }
+    // sometimes a long repetitive body so that back-references cross chunk boundaries
+    if rng.chance(1, 6) {
+        let unit = String::from_utf8_lossy(&c.body).to_string();
+        let reps = rng.range(2, if tier == Tier::Quick { 6 } else { 40 });
+        let mut b = String::new();
+        let (head, tail) = match unit.rfind("</body>") {
+            Some(p) => (unit[..p].to_string(), unit[p..].to_string()),
+            None => (unit.clone(), String::new()),
+        };
+        b.push_str(&head);
+        for _ in 0..reps {
+            b.push_str("<p class=\"row\">row row row row</p>");
+        }
+        b.push_str(&tail);
+        c.body = b.into_bytes();
+        c.body_preview = preview(&c.body);
+    }
+    if rng.chance(1, 8) {
+        // unsupported / combined encodings: the body is delivered as it is
+        let e = rng.pick_str(&["identity", "compress", "gzip, br", "zstd", "x-gzip", "gzip,deflate", "br, gzip", "deflate gzip"]);
+        c.headers = gen_headers(rng, Some(&e));
+        c.enc = None;
+        c.scheds.truncate(6);
+        return c;
+    }
+    let codec = rng.pick_str(&["gzip", "gzip", "deflate", "deflate", "br"]);
+    let enc = Enc {
+        codec: codec.clone(),
+        level: if codec == "br" { rng.range(0, 11) as u32 } else { rng.range(0, 9) as u32 },
+        lgwin: rng.range(16, 24) as u32,
+    };
+    let declared = match rng.below(6) {
+        0 => codec.to_uppercase(),
+        1 => {
+            let mut s = codec.clone();
+            s[..1].make_ascii_uppercase();
+            s
+        }
+        _ => codec.clone(),
+    };
+    c.headers = gen_headers(rng, Some(&declared));
+    let wire = encode(&enc, &c.body);
+    let wl = wire.len();
+    let is_br = codec == "br";
+    let n = match (tier, is_br) {
+        (Tier::Quick, false) => 10,
+        (Tier::Quick, true) => 6,
+        (Tier::Thorough, false) => 24,
+        (Tier::Thorough, true) => 12,
+    };
+    // cuts biased to the codec header and trailer
+    let mut hot: Vec<usize> = (0..wl.min(12)).collect();
+    hot.extend(wl.saturating_sub(10)..wl);
+    c.scheds = gen_scheds(rng, wl, n, &hot);
+    if wl > 2048 || (is_br && wl > 300) {
+        // drop byte-at-a-time for long streams (it is schedule 0)
+        if !c.scheds.is_empty() && c.scheds[0].len() + 1 >= wl {
+            c.scheds.remove(0);
+        }
+    }
+    c.all_single = if is_br { wl <= 96 } else { wl <= 400 };
+    c.enc = Some(enc);
+    c
+}
+
+fn exec_codec(case: &W2Case, ctx: &mut Ctx) {
+    let headers = lib_headers(&case.headers);
+    let plain_headers: Vec<Header> = headers.iter().filter(|h| h.name.to_lowercase() != "content-encoding").cloned().collect();
+    let body: &[u8] = &case.body;
+    ctx.event_bytes("body", body);
+    let Some(plain) = guard(ctx, "filter(plain body, one chunk)", || run_stream(&case.filters, &plain_headers, &[body], None)) else {
+        return;
+    };
+    ctx.evals += 1;
+
+    let Some(enc) = &case.enc else {
+        // unsupported / combined encoding
+        ctx.probe("fault_unsupported_content_encoding");
+        let mut scheds: Vec<Vec<usize>> = vec![Vec::new()];
+        scheds.extend(case.scheds.iter().cloned());
+        for cuts in scheds {
+            ctx.evals += 1;
+            let chunks = chunks_of(body, &cuts);
+            let hint = json!({ "cuts": cuts });
+            let Some(got) = guard_hint(ctx, "filter(unsupported encoding)", hint.clone(), || run_stream(&case.filters, &headers, &chunks, None)) else {
+                return;
+            };
+            if !got.chain_empty {
+                ctx.fail_hint("unsupported-encoding-filtered", format!("a filter chain was created for {:?}", content_encoding(&case.headers)), hint);
+                return;
+            }
+            if got.out != body {
+                ctx.fail_hint("unsupported-encoding-filtered", "body altered under an unsupported encoding".to_string(), hint);
+                return;
+            }
+        }
+        return;
+    };
+    let wire = encode(enc, body);
+    ctx.event_bytes("wire", &wire);
+    ctx.stat(&format!("producer_{}", enc.codec), 1);
+    let mut counted = false;
+
+    let mut check = |cuts: &[usize], ctx: &mut Ctx| {
+        ctx.evals += 1;
+        let chunks = chunks_of(&wire, cuts);
+        let hint = json!({ "cuts": cuts });
+        let Some(got) = guard_hint(ctx, "filter(compressed stream)", hint.clone(), || run_stream(&case.filters, &headers, &chunks, None)) else {
+            return;
+        };
+        if !counted && !got.chain_empty {
+            counted = true;
+            ctx.fingerprint(case_fp(case));
+        }
+        if got.chain_empty {
+            if !plain.chain_empty {
+                ctx.fail_hint("supported-encoding-not-filtered", format!("no chain for Content-Encoding {:?}", content_encoding(&case.headers)), hint);
+            } else if got.out != wire {
+                ctx.fail_hint("passthrough", "empty chain but the stream was altered".to_string(), hint);
+            }
+            return;
+        }
+        if got.error_at.is_some() {
+            ctx.fail_hint("valid-stream-rejected", format!("the filter entered its error state on a valid {} stream, cuts={cuts:?}", enc.codec), hint);
+            return;
+        }
+        match decode(&enc.codec, &got.out) {
+            Err(e) => ctx.fail_hint(
+                "output-not-a-complete-stream",
+                format!("cuts={cuts:?} {e}; body={} out_len={}", show(body), got.out.len()),
+                hint,
+            ),
+            Ok(dec) => {
+                if dec != plain.out {
+                    ctx.fail_hint(
+                        "decoded!=plain-filtered",
+                        format!(
+                            "codec={} level={} cuts={cuts:?}\n body ={}\n plain={}\n dec  ={}",
+                            enc.codec,
+                            enc.level,
+                            show(body),
+                            show(&plain.out),
+                            show(&dec)
+                        ),
+                        hint,
+                    );
+                }
+            }
+        }
+    };
+
+    check(&[], ctx);
+    if case.all_single {
+        for k in 0..=wire.len() {
+            if ctx.failures.len() >= 4 {
+                break;
+            }
+            check(&[k], ctx);
+        }
+    }
+    for s in &case.scheds {
+        if ctx.failures.len() >= 4 {
+            break;
+        }
+        check(s, ctx);
+    }
 }
